@@ -178,6 +178,15 @@ theorem failed_commit_publishes_nothing (a a' : ExecAsm) (e : Err) (addr : Nat)
     a'.mem.view = a.mem.view ∧ a'.mem.committed = a.mem.committed := by
   rw [C11.failed_commit_keeps_memory a a' e addr h hne]; exact ⟨rfl, rfl⟩
 
+/-- **Known finding `deferred-defect-forgotten-*`: the property is FALSE of a second commit.** A definition-time defect sits in the error slot and is
+reported by one commit, which empties the slot; the batch is unchanged, yet the next commit of the same batch succeeds (stated for a batch without
+pending references; model of `VecAssembler`, the `asm` stream shows the implementation does the same and `Assembler::encode_relocs` has the same
+`self.error.take()`). `lib/c06.py` replays such histories on the implementation and reports them per front end and defect. -/
+theorem deferred_defect_reported_once (a : VecAsm) (e : Err) (herr : a.core.error = some e)
+    (hs : a.core.statics = []) (hd : a.core.dynamics = []) :
+    a.commit.2 = .err e ∧ a.commit.1.ops = a.ops ∧ a.commit.1.commit = (a.commit.1, .ok) := by
+  simp [VecAsm.commit, Core.encodeRelocs, herr, hs, hd, patchStatics, patchDynamics, dynamicsRest]
+
 /-! ## non-vacuity -/
 example : slotDefect [.glob 3, .emit 2] (.glob 3) = some (.duplicate (.glob 3)) := by decide
 example : slotDefect [.newDyn] (.dynDef 1) = some (.unknown (.dyn 1)) ∧ slotDefect [.newDyn] (.dynDef 0) = none := by decide
